@@ -92,6 +92,8 @@ structure B where
   mods : List Module := []
   cur : Option Module := none
   fn : Option Func := none
+  /-- index of the open function in the module's item list (`add_item` appends it at `MIR_new_func`) -/
+  fnPos : Nat := 0
 
 def addIt (b : B) (it : Item) : Option B :=
   b.cur.map fun m => { b with cur := some { m with items := m.items ++ [it] } }
@@ -144,7 +146,8 @@ def stepLine (b : B) (ws : List (List Char)) : Option B :=
     | "proto", n :: sig =>
       (parseSig sig).bind fun (v, res, a) => addIt b (.proto (decName n) res a v)
     | "func", n :: sig =>
-      (parseSig sig).map fun (v, res, a) => { b with fn := some ⟨decName n, res, a, v, [], [], []⟩ }
+      (parseSig sig).map fun (v, res, a) =>
+        { b with fn := some ⟨decName n, res, a, v, [], [], []⟩, fnPos := ((b.cur.map (·.items.length)).getD 0) }
     | "local", [ty, n] =>
       (match str2type ty, b.fn with
        | some t, some f => some { b with fn := some { f with locals := f.locals ++ [(t, decName n)] } }
@@ -163,9 +166,10 @@ def stepLine (b : B) (ws : List (List Char)) : Option B :=
          if os.length = k then some { b with fn := some { f with body := f.body ++ [.insn c os] } } else none
        | _, _, _, _ => none)
     | "endfunc", [] =>
-      (match b.fn with
-       | some f => (addIt b (.func f)).map fun b' => { b' with fn := none }
-       | none => none)
+      (match b.fn, b.cur with
+       | some f, some m =>
+         some { b with fn := none, cur := some { m with items := m.items.take b.fnPos ++ [.func f] ++ m.items.drop b.fnPos } }
+       | _, _ => none)
     | _, _ => none
 
 def buildCase (lines : List (List Char)) : Option (List Module) :=
